@@ -57,7 +57,7 @@ sslKeys_t *load_keys(const KeySpec &ks, int *rc_out) {
     int rc = matrixSslNewKeys(&keys, nullptr);
     if (rc < 0) { if (rc_out) { *rc_out = rc; } return nullptr; }
     Bytes cas;
-    for (int k = 1; k <= KK_EC384_SHA384; k++) {
+    for (int k = 1; k <= KK_EC256_PATHLEN; k++) {
         if (ks.ca_mask & (1u << k)) { KeyMat m; if (keymat(k, m)) { cas.insert(cas.end(), m.ca, m.ca + m.caLen); } }
     }
     KeyMat id; bool have_id = keymat(ks.identity, id);
